@@ -435,6 +435,18 @@ func genEpisode(r *hx.Rng, ip *interp, run func(string) string, n int, st *genSt
 				}
 			} else if r.Chance(1, 10) {
 				next = ip.w.height + uint64(1+r.Intn(400))
+			} else if id, _, _, _, ok := e.knownMiner(); ok && r.Chance(1, 4) {
+				// boundary of eligibility: land one before / on / one after a miner's apply height
+				if mr := service.MinerManagerImpl.GetMiner(id, ip.w.adb); mr != nil {
+					t := mr.ApplyHeight + uint64(r.Intn(3))
+					if t > 0 {
+						t--
+					}
+					if t > ip.w.height && t < 1<<40 {
+						next = t
+						st.inc("jump-to-apply-height")
+					}
+				}
 			}
 			run(fmt.Sprintf("endblock %d", next))
 		}
